@@ -43,6 +43,20 @@ func (z *Zone) Answer(q dns.Question, do bool) (*dns.Msg, Truth) {
 		return m, tr
 	}
 	m.Authoritative = true
+	// DS at a cut is parent-side data
+	if c, ok := z.Cuts[name]; ok && q.Qtype == dns.TypeDS {
+		if len(c.DS) > 0 {
+			m.Answer = z.withSig(c.DS, do)
+			tr.Kind, tr.Answer = "answer", cp(c.DS)
+		} else {
+			m.Ns = append(m.Ns, z.soaNeg(do)...)
+			if z.Signed && do {
+				m.Ns = append(m.Ns, z.denyTypeAt(name)...)
+			}
+			tr.Kind = "nodata"
+		}
+		return m, tr
+	}
 	z.answerInto(m, &tr, name, q.Qtype, do, 0)
 	return m, tr
 }
@@ -57,11 +71,23 @@ func (z *Zone) denyTypeAt(name string) []dns.RR {
 		if n3 := z.nsec3Match(name); n3 != nil {
 			return z.withSig([]dns.RR{n3}, true)
 		}
-		// opt-out: the delegation is not in the ring; closest-encloser proof
-		ce, nc := z.closestEncloser(name)
+		// opt-out: the delegation is not in the ring; closest *provable* encloser proof
+		labels := labelsOf(name)
+		nc := name
 		var out []dns.RR
-		if m := z.nsec3Match(ce); m != nil {
-			out = append(out, z.withSig([]dns.RR{m}, true)...)
+		for i := 1; i <= len(labels); i++ {
+			ce := "."
+			if i < len(labels) {
+				ce = lc(strings.Join(labels[i:], "."))
+			}
+			if m := z.nsec3Match(ce); m != nil {
+				out = append(out, z.withSig([]dns.RR{m}, true)...)
+				break
+			}
+			nc = ce
+			if ce == z.Name {
+				break
+			}
 		}
 		out = append(out, z.withSig([]dns.RR{z.nsec3Cover(nc)}, true)...)
 		return dedupRR(out)
